@@ -45,7 +45,7 @@ CHECKS = {
             "Trusted: the required-count table in DESIGN.md. thread_rng replaced by the seeded hook PRNG; Instant by tokio virtual time.",
             "DESIGN.md section 10 C15"),
     "C16": ("E1", "exploration",
-            "The real datacake-node watch_membership_changes fed seeded snapshot sequences; subscribers from the real DatacakeHandle attach at seeded moments and read with seeded delays, folding joined/left; at quiescence each must hold exactly the live membership, and every departure must have been reported in `left` with the old address. Late/slow-subscriber losses are recorded known findings. One case in 127 is a real cluster (public API only, real gossip layer over the simulated network, long link holds, crashes, restarts, address moves) whose per-node subscriber must add up to the membership layer's own view at quiescence, and whose layers must describe exactly the running nodes - also while some nodes (up to all but one) are gone until the faults stop.",
+            "The real datacake-node watch_membership_changes fed seeded snapshot sequences (a third of them over host slots that are not tied to a node id: a departing node is often replaced, within one snapshot, by another id on the very same address); subscribers from the real DatacakeHandle attach at seeded moments and read with seeded delays, folding joined/left; at quiescence each must hold exactly the live membership, and every departure must have been reported in `left` with the old address. Late/slow-subscriber losses are recorded known findings. One case in 127 is a real cluster (public API only, real gossip layer over the simulated network, long link holds, crashes, restarts, address moves) whose per-node subscriber must add up to the membership layer's own view at quiescence, and whose layers must describe exactly the running nodes - also while some nodes (up to all but one) are gone until the faults stop.",
             "chitchat is a stub in the single-node cases (harness-supplied snapshots through the same watch-channel type); in the real-cluster arm it is the vendored fork with replay patches only.",
             "DESIGN.md section 10 C16"),
     "C17": ("E1", "exploration",
@@ -61,7 +61,7 @@ CHECKS = {
             "chitchat is a stub (harness membership views) except in the real-membership family; recoverable network faults only; SimStorage; all operations within one forgiveness period (validated).",
             "DESIGN.md section 10 C01"),
     "C06": ("E2", "exploration",
-            "Same cluster engine; the oracle runs inside the issuing host at the instant put/put_many/del/del_many returns and reads every node's store: Ok => the level's required number of distinct other holders (computed over the issuer's view, weakest view during the call); ConsistencyFailure => responses < required, responses <= holders, local write in place; closing exchanges replicate it everywhere. Part of the cases run on the real-membership family (public API only, real gossip layer).",
+            "Same cluster engine; the oracle runs inside the issuing host at the instant put/put_many/del/del_many returns and reads every node's store: Ok => the level's required number of distinct other holders (computed over the issuer's view, weakest view during the call); ConsistencyFailure => responses < required, responses <= holders, local write in place; an acknowledged call that left no write of its own on the issuer counts as superseded only if the issuer's row is not older than the lowest reading of its wall clock during the call; closing exchanges replicate it everywhere. Part of the cases run on the real-membership family (public API only, real gossip layer).",
             "Holder = store holds the mutation or a newer one for every id. Overlapping identical deletes by one node are skipped (indistinguishable in the store log).",
             "DESIGN.md section 10 C06"),
     "C12": ("E2", "fault_enumeration",
@@ -69,11 +69,11 @@ CHECKS = {
             "Frames > 1 KiB: 4096 seeded flips / 1024 truncations instead of all. Corruption at the frame layer, not TCP.",
             "DESIGN.md section 10 C12"),
     "C13": ("E2", "fault_enumeration",
-            "Every add/remove history over {A,B,C} up to length 4 (quick) / 5 (thorough) enumerated completely on a running server, all four (service,message) pairs probed after every step through the real client over simulated TCP; plus seeded longer histories with concurrent probes; one service uses a custom path() and send_owned; one seeded history in four removes a service instance whose drop has a second OS thread re-register the service while the removal is still running.",
+            "Service names related by prefix and suffix (\"store\", \"store-admin\", \"re-store\"). Every add/remove history over {A,B,C} up to length 4 (quick) / 5 (thorough) enumerated completely on a running server, all four (service,message) pairs probed after every step through the real client over simulated TCP; plus seeded longer histories with concurrent probes; one service uses a custom path() and send_owned; one seeded history in four removes a service instance whose drop has a second OS thread re-register the service while the removal is still running.",
             "Probes are sequenced after each registry change. The re-registration arm uses one real second thread whose start is forced by a handshake plus 25 ms of real time; the unchanged registry ends in the same state whichever call finishes last.",
             "DESIGN.md section 10 C13"),
     "C14": ("E2", "exploration",
-            "Waves of concurrent requests with unique ids, payload sizes (0-20 KiB; one case in seven also 64-900 KiB, several HTTP/2 flow-control windows), handler delays and client timeouts over simulated TCP with timed hold/release, partition/repair (mid-stream) and server kill+restart; results checked against the handler's execution log: right reply or Connection/Timeout error, at most one execution, no swapped replies, timeouts honoured.",
+            "One or two server hosts and one or two client hosts (one Channel per server); every server offers two services that share one message type and answer differently, and in half the cases 15 % of the requests are refused by their handler with one of the five error codes and a message naming the request (a refusal must arrive verbatim and the request must have run exactly once). Waves of concurrent requests with unique ids, payload sizes (0-20 KiB; one case in seven also 64-900 KiB, several HTTP/2 flow-control windows), handler delays and client timeouts over simulated TCP with timed hold/release, partition/repair (mid-stream) and server kill+restart; results checked against the handler's execution log: right reply or Connection/Timeout error, at most one execution, no swapped replies, timeouts honoured.",
             "Black-holed requests without a timeout are abandoned by the harness after 30 simulated s (the statement promises no bound for them).",
             "DESIGN.md section 10 C14"),
     "C19": ("E2", "exploration",
